@@ -63,8 +63,13 @@ pub fn record(rep: &mut Report, check: &str, case: &Case, obs: &Obs, j: &Judge) 
         if j.panics {
             let sig = format!("{}|{}", form_or_class(&obs.step.insn, &form), panic_sig(p));
             rep.finding(&sig, || format!("panic at {}:{}: {} on {}", p.file, p.line, p.msg, case.to_line()), || format!("check={} kind=step {}", check, case.to_line()));
+            return false;
         }
-        return false;
+        // not a panic check: the panic itself is C15's, but where the reference says the instruction
+        // executes, "it panicked instead" falls through as an outcome difference of this property
+        if !matches!(obs.step.outcome, Outcome::Ok(_)) {
+            return false;
+        }
     }
     // overlapping data/address register in +/- forms: only the cycle mix (C20) and the decoder
     // aspects (C07) are judged, the value-level properties exclude these cases
